@@ -50,6 +50,41 @@ def same_out(a, b):
     return False
 
 
+def w_flags(case):
+    """make_readable with show / save_report / both, in a private scratch directory with stdout and stderr captured"""
+    import os
+    import shutil
+    import sys
+    import tempfile
+    from props.c17 import Capture
+    text, bg, large, mode, very = case
+    d = tempfile.mkdtemp(prefix="cmv_c06_")
+    cwd = os.getcwd()
+    os.chdir(d)
+    res = {}
+    try:
+        sys.stdout = sys.__stdout__
+        from cm_colors import ColorPair
+        for name, kw in (("show", dict(show=True)), ("save_report", dict(save_report=True)), ("show+save_report", dict(show=True, save_report=True))):
+            with Capture():
+                try:
+                    got = ColorPair(text, bg, bool(large)).make_readable(mode=mode, very_readable=bool(very), **kw)
+                    if not (isinstance(got, tuple) and len(got) == 2):
+                        res[name] = ("shape", repr(got)[:80], type(got).__name__)
+                    elif got[0] is None:
+                        res[name] = ("none", None, None)
+                    else:
+                        o = got[0]
+                        res[name] = ("ok", tuple(o) if isinstance(o, (tuple, list)) else o if isinstance(o, str) else repr(o)[:80], type(o).__name__)
+                except Exception as ex:  # noqa
+                    res[name] = ("raise", type(ex).__name__ + ": " + str(ex)[:120], None)
+    finally:
+        os.chdir(cwd)
+        shutil.rmtree(d, ignore_errors=True)
+        sys.stdout = open(os.devnull, "w")
+    return res
+
+
 def check(run):
     run.proof = proof_status("C06", regenerate=regen_leaves)
     from translate import leaves as _leaves
@@ -120,13 +155,32 @@ def check(run):
         run.hit("mapping.%s.%s" % (k, outcome))
         want = OUT_FORMAT[k]
         f = {"hex": "hex", "rgb": "rgb", "hsl": "hsl", "tuple": "rgb_tuple"}[want]
-        if not fw.shape_ok(f, out):
+        if not fw.shape_ok(f, out) or r.get("out_type") != ("tuple" if f == "rgb_tuple" else "str"):
             run.violation("make_readable did not return the documented counterpart of the input's format",
-                          list(c), input_kind=k, expected_format=want, returned=out, outcome=outcome)
+                          list(c), input_kind=k, expected_format=want, returned=out, returned_type=r.get("out_type"), outcome=outcome)
         impl_line = enc_out(out) + (" 1" if ok else " 0")
         ms = m.rsplit(" ", 1)
         if not (len(ms) == 2 and same_out(enc_out(out), ms[0]) and ms[1] == ("1" if ok else "0")):
             run.diverge("make_readable==Cm.ColorPair.makeReadable", list(c), impl_line, m)
+    # ---- the same mapping when the documented preview / report switches are on (the returned value is still make_readable's)
+    nfl = 90 if q else 1500
+    fl_cases = [(c, k) for c, k in zip(cases, kinds) if OUT_FORMAT[k] != "hex"][:nfl] + [(c, k) for c, k in zip(cases, kinds) if OUT_FORMAT[k] == "hex"][:nfl // 6]
+    with opool() as p:
+        fres = p.map(w_flags, [c for c, _ in fl_cases], chunksize=2)
+    for (c, k), fr in zip(fl_cases, fres):
+        want = OUT_FORMAT[k]
+        f = {"hex": "hex", "rgb": "rgb", "hsl": "hsl", "tuple": "rgb_tuple"}[want]
+        for name, got in fr.items():
+            run.count(("mr_flags", name, json.dumps(c, default=list)))
+            if got[0] == "raise":
+                continue        # whether the preview may raise is C17's subject
+            if got[0] == "none":
+                continue        # invalid pair
+            run.hit("mapping_flags.%s.%s" % (k, name))
+            out, typ = got[1], got[2]
+            if not fw.shape_ok(f, out) or typ != ("tuple" if f == "rgb_tuple" else "str"):
+                run.violation("make_readable did not return the documented counterpart of the input's format (with %s)" % name,
+                              list(c), input_kind=k, expected_format=want, returned=out, returned_type=typ)
     run.sample({"format_color": [[0, 0, 51], "hsl"], "make_readable": list(cases[0]), "result": [res[0].get("out"), res[0].get("ok")], "model": mo[0]})
     run.assumptions = ["CSS-conformant reader: tinycss2.color3 (channel = nearest 8-bit value)",
                        "repr(float) and float(str) are exact inverses on doubles (the decimal text of the three HSL numbers is not modelled)",
